@@ -268,6 +268,8 @@ impl<Key, Value> CacheD<Key, Value>
         let (key, value, time_to_live)
             = (request.key, request.value, request.time_to_live);
 
+        #[cfg(feature = "cached_verif")]
+        crate::cache::verif::point("upsert.update");
         let update_response
             = self.store.update(&key, value, time_to_live, request.remove_time_to_live);
 
@@ -293,6 +295,8 @@ impl<Key, Value> CacheD<Key, Value>
         }
 
         let key_id = update_response.key_id_or_panic();
+        #[cfg(feature = "cached_verif")]
+        crate::cache::verif::point("upsert.weight_of");
         let existing_weight = self.admission_policy.weight_of(&key_id).unwrap_or(0);
 
         let updated_weight = match update_response.type_of_expiry_update() {
@@ -343,6 +347,8 @@ impl<Key, Value> CacheD<Key, Value>
     pub fn delete(&self, key: Key) -> CommandSendResult {
         if self.is_shutting_down() { return shutdown_result(); }
 
+        #[cfg(feature = "cached_verif")]
+        crate::cache::verif::point("delete.mark");
         self.store.mark_deleted(&key);
         self.command_executor.send(CommandType::Delete(key))
     }
@@ -455,14 +461,24 @@ impl<Key, Value> CacheD<Key, Value>
     /// This is how `shutdown` in `CommandExecutor` is handled, it finishes all the futures in the pipeline that are placed after the `Shutdown` command.
     /// All such futures ultimately get [`crate::cache::command::CommandStatus::ShuttingDown`].
     pub fn shutdown(&self) {
+        #[cfg(feature = "cached_verif")]
+        crate::cache::verif::point("shutdown.cas");
         if self.is_shutting_down.compare_exchange(false, true, Ordering::Release, Ordering::Relaxed).is_ok() {
             info!("Starting to shutdown cached");
+            #[cfg(feature = "cached_verif")]
+            crate::cache::verif::point("shutdown.begin");
             let _ = self.command_executor.shutdown();
             self.admission_policy.shutdown();
+            #[cfg(feature = "cached_verif")]
+            crate::cache::verif::point("shutdown.ticker_flag");
             self.ttl_ticker.shutdown();
 
+            #[cfg(feature = "cached_verif")]
+            crate::cache::verif::point("shutdown.store_clear");
             self.store.clear();
             self.admission_policy.clear();
+            #[cfg(feature = "cached_verif")]
+            crate::cache::verif::point("shutdown.ttl_clear");
             self.ttl_ticker.clear();
         }
     }
@@ -473,6 +489,8 @@ impl<Key, Value> CacheD<Key, Value>
 
     fn key_description(&self, key: Key, weight: Weight) -> KeyDescription<Key> {
         let hash = (self.config.key_hash_fn)(&key);
+        #[cfg(feature = "cached_verif")]
+        crate::cache::verif::point("id.next");
         KeyDescription::new(key, self.id_generator.next(), hash, weight)
     }
 
@@ -488,6 +506,8 @@ impl<Key, Value> CacheD<Key, Value>
     }
 
     fn is_shutting_down(&self) -> bool {
+        #[cfg(feature = "cached_verif")]
+        crate::cache::verif::point("flag.load");
         self.is_shutting_down.load(Acquire)
     }
 }
@@ -707,6 +727,59 @@ impl<'a, Key, Value, MapFn, MappedValue> Iterator for MultiGetMapIterator<'a, Ke
     }
 }
 
+
+#[cfg(feature = "cached_verif")]
+/// Everything the cache holds, read without side effects (no statistics, no access counting).
+pub struct VerifSnapshot<Key, Value> {
+    pub store: Vec<(Key, Value, KeyId, Option<std::time::SystemTime>, bool)>,
+    pub key_weights: Vec<(KeyId, Key, u64, Weight)>,
+    pub weight_used: Weight,
+    pub ttl_shards: Vec<Vec<(KeyId, std::time::SystemTime)>>,
+    pub command_queue_len: usize,
+    pub buffer_queue_len: usize,
+    pub pool_buffers: Vec<Vec<u64>>,
+    pub sketch: crate::cache::lfu::tiny_lfu::VerifSketch,
+    pub stats: Vec<u64>,
+    pub is_shutting_down: bool,
+}
+
+#[cfg(feature = "cached_verif")]
+impl<Key, Value> CacheD<Key, Value>
+    where Key: Hash + Eq + Send + Sync + Clone + 'static,
+          Value: Send + Sync + Clone + 'static {
+    pub fn verif_snapshot(&self) -> VerifSnapshot<Key, Value> {
+        use crate::cache::stats::StatsType;
+        let stats_counter = self.store.stats_counter();
+        let stats = vec![
+            stats_counter.hits(), stats_counter.misses(), stats_counter.keys_added(), stats_counter.keys_deleted(),
+            stats_counter.keys_updated(), stats_counter.keys_rejected(), stats_counter.weight_added(), stats_counter.weight_removed(),
+            stats_counter.access_added(), stats_counter.access_dropped(),
+        ];
+        debug_assert_eq!(StatsType::AccessDropped as usize + 1, stats.len());
+        VerifSnapshot {
+            store: self.store.verif_entries(),
+            key_weights: self.admission_policy.verif_key_weights(),
+            weight_used: self.admission_policy.verif_weight_used(),
+            ttl_shards: self.ttl_ticker.verif_shards(),
+            command_queue_len: self.command_executor.verif_queue_len(),
+            buffer_queue_len: self.admission_policy.verif_buffer_queue_len(),
+            pool_buffers: self.pool.verif_buffers(),
+            sketch: self.admission_policy.verif_sketch(),
+            stats,
+            is_shutting_down: self.is_shutting_down.load(Acquire),
+        }
+    }
+
+    pub fn verif_command_queue_len(&self) -> usize { self.command_executor.verif_queue_len() }
+
+    pub fn verif_buffer_queue_len(&self) -> usize { self.admission_policy.verif_buffer_queue_len() }
+
+    /// (eviction sample size, capacity of the access-buffer channel, weight charged for a time-to-live entry)
+    pub fn verif_constants() -> (usize, usize, usize) {
+        let (sample_size, channel_capacity) = AdmissionPolicy::<Key>::verif_constants();
+        (sample_size, channel_capacity, Calculation::ttl_ticker_entry_size())
+    }
+}
 
 #[cfg(test)]
 mod tests {
